@@ -481,7 +481,9 @@ fn gen11(seed: u64) -> WorldCase {
                 if let Some(b) = my_binds.get(r.usize(my_binds.len().max(1))) {
                     let (c, names) = &st.ctxs[r.usize(st.ctxs.len())];
                     if !names.is_empty() {
-                        let name = r.pick(names).clone();
+                        // now and then the name of a program this context does not hold: the
+                        // exec fails as unbound and must leave nothing behind
+                        let name = if r.chance(1, 12) { r.pick(&["ghost", "p4", "x0"]).to_string() } else { r.pick(names).clone() };
                         let times = match r.weighted(&[6, 3, 1]) {
                             0 => 1,
                             1 => 2,
@@ -1017,6 +1019,9 @@ enum Sc {
     ManyAbsorbed { form: usize, k: usize, n: usize },
     /// two contexts hold different programs under the same names
     TwoContexts,
+    /// a bound function shares its name with a stored program (`prog`) or a bound variable:
+    /// in value position the name is the program / variable, in call position the function
+    FuncSharesName { prog: bool },
     Rebind,
     Json,
     Chain { construct: &'static str, n: usize },
@@ -1129,6 +1134,8 @@ fn scenarios(thorough: bool) -> Vec<Sc> {
         }
     }
     v.push(Sc::TwoContexts);
+    v.push(Sc::FuncSharesName { prog: true });
+    v.push(Sc::FuncSharesName { prog: false });
     v.push(Sc::Rebind);
     v.push(Sc::Json);
     let lens: &[usize] = if thorough { &[1, 2, 3, 4, 8, 12, 15, 16, 17, 20, 24, 31, 32, 33, 40, 48, 64] } else { &[1, 2, 8, 15, 16, 17, 32, 33, 64] };
@@ -1215,10 +1222,15 @@ fn build12(sc: &Sc, seed: u64) -> WorldCase {
             if *prog {
                 add(&mut ops, name, tag("prog", name, uniq).render());
             }
-            let src = match r.usize(3) {
+            ops.push(Op { t: t_exec, k: OpK::BindFunc { b: 0, name: "idf".into(), ret: V::Other("arg0".into()) } });
+            let src = match r.usize(6) {
                 0 => name.to_string(),
                 1 => format!("[{}][0]", name),
-                _ => format!("true ? {} : 1", name),
+                2 => format!("true ? {} : 1", name),
+                // the same order inside a macro body, a call argument and a map value
+                3 => format!("[1].map(v, {})[0]", name),
+                4 => format!("idf({})", name),
+                _ => format!("{{'k': {}}}.k", name),
             };
             add(&mut ops, "main", src);
             // which spelling the type value prints with is not C12's business
@@ -1235,7 +1247,15 @@ fn build12(sc: &Sc, seed: u64) -> WorldCase {
                 bind(&mut ops, n, tag("param", n, uniq));
                 add(&mut ops, n, tag("prog", n, uniq).render());
             }
-            add(&mut ops, "main", format!("[{}, 1][0]", n));
+            ops.push(Op { t: t_exec, k: OpK::BindFunc { b: 0, name: "idf".into(), ret: V::Other("arg0".into()) } });
+            let src = match r.usize(5) {
+                0 => format!("[{}, 1][0]", n),
+                1 => format!("[1].map(v, {})[0]", n),
+                2 => format!("idf({})", n),
+                3 => format!("f'{{{}}}'", n),
+                _ => format!("coalesce({}, 'none')", n),
+            };
+            add(&mut ops, "main", src);
             expect(&mut ops, &mut r, "main", Want::Val(tag("param", n, uniq)));
             // executing the colliding name itself runs the stored program
         }
@@ -1359,6 +1379,21 @@ fn build12(sc: &Sc, seed: u64) -> WorldCase {
             let src = format!("({}) ? 'no' : c0", parts.join(" || "));
             add(&mut ops, "main", src);
             expect(&mut ops, &mut r, "main", Want::Val(V::Str(expected)));
+        }
+        Sc::FuncSharesName { prog } => {
+            label = format!("function-shares-name-with-{}", if *prog { "program" } else { "variable" });
+            let n = *r.pick(&["q", "cfg", "x3"]);
+            ops.push(Op { t: t_exec, k: OpK::BindFunc { b: 0, name: n.to_string(), ret: tag("func", n, uniq) } });
+            if *prog {
+                add(&mut ops, n, tag("prog", n, uniq).render());
+            } else {
+                bind(&mut ops, n, tag("param", n, uniq));
+            }
+            bind(&mut ops, "x0", V::Int(3));
+            add(&mut ops, "asvalue", format!("[{}, 1][0]", n));
+            add(&mut ops, "ascall", format!("{}(x0)", n));
+            expect(&mut ops, &mut r, "asvalue", Want::Val(tag(if *prog { "prog" } else { "param" }, n, uniq)));
+            expect(&mut ops, &mut r, "ascall", Want::Val(tag("func", n, uniq)));
         }
         Sc::TwoContexts => {
             label = "two-contexts-same-names".into();
